@@ -32,7 +32,7 @@ fn node_clone(n: &Node) -> (r: Node) ensures r == *n { n.clone() }
 fn str_to_owned(s: &str) -> (r: String) ensures r@ == s@ { s.to_owned() }
 
 // ---- opaque collaborators; contracts as discharged in units v_lattice (fill_top_path, node), v_bufro (to_curr_byte_idx), v_lset
-pub struct Lattice { _p: () }
+#[verifier::external_body] pub struct Lattice { _p: () }
 impl Lattice {
     /// back-pointer chain of the chosen path, EOS side first (v_lattice: chain(l, eos idx)); empty if no EOS was connected
     uninterp spec fn sp_chain(&self) -> Seq<NodeIdx>;
@@ -43,7 +43,7 @@ impl Lattice {
     #[verifier::external_body]
     fn node(&self, id: NodeIdx) -> (r: (&Node, i32)) ensures *r.0 == self.sp_node(id), r.1 == self.sp_cost(id) { unimplemented!() }
 }
-pub struct InputBuffer { _p: () }
+#[verifier::external_body] pub struct InputBuffer { _p: () }
 impl InputBuffer {
     uninterp spec fn sp_nch(&self) -> int;
     uninterp spec fn sp_c2b(&self, i: int) -> int;            // char index -> byte offset in the normalised text (v_bufro: mod_c2b)
@@ -59,7 +59,7 @@ impl InputBuffer {
         ensures r@ == self.sp_slice_c(data.start as int, data.end as int)
     { unimplemented!() }
 }
-pub struct LexiconSet<'a> { _p: core::marker::PhantomData<&'a ()> }
+#[verifier::external_body] pub struct LexiconSet<'a> { _p: core::marker::PhantomData<&'a ()> }
 impl<'a> LexiconSet<'a> {
     uninterp spec fn sp_word_info(&self, id: WordId, subset: InfoSubset) -> WordInfo;
     #[verifier::external_body]
